@@ -45,6 +45,17 @@ ASSUMPTIONS = [
 
 logging.disable(logging.CRITICAL)
 
+# epoch-scale times: ns since 1970 of late 2023, int64-safe, far above 2**53 and odd — float64 cannot hold it exactly
+# (the spacing of doubles there is 256 ns), so integer arithmetic replaced by floats shows up as off-by-one decisions
+T0 = 1_700_000_000_000_000_137
+
+
+def shift_chunk_case(case, t0=T0):
+    c = dict(case)
+    c["rows"] = [(t + t0, e + t0, i) for t, e, i in case["rows"]]
+    c["start"], c["end"] = case["start"] + t0, case["end"] + t0
+    return c
+
 # ----------------------------------------------------------------------------- dtypes and encodings
 I8, I4, I2 = np.int64, np.int32, np.int16
 DT = np.dtype([(("Start time", "time"), I8), (("End time", "endtime"), I8), (("Identity", "id"), I8)])
@@ -567,7 +578,7 @@ def oracle_fix(case, out):
     return None
 
 
-def gen_fix_cases(ctx, n):
+def gen_fix_cases(ctx, n, t0=0):
     rng = ctx.rng
     cases = []
     kinds = ["ordinary", "ordinary", "multi", "multi", "source", "loop", "cut", "overlap"]
@@ -576,7 +587,7 @@ def gen_fix_cases(ctx, n):
         enc = "end" if kind == "cut" else rng.choice(["end", "end", "len", "arr"])
         run_id = "r0" if rng.random() < 0.9 else "_sup"
         plugin = dict(kind=kind, enc=enc, run_id=run_id)
-        start = rng.randint(0, 5)
+        start = t0 + rng.randint(0, 5)
         end = start + rng.randint(0, 12)
         rng_ = None if kind == "source" else [start, end]
         if kind == "cut":
@@ -780,25 +791,31 @@ def stream_cases(ctx):
     for n in range(0, 4):
         for combo in itertools.product(ivs, repeat=n):
             ex.append(dict(chunks=[[a, b, "r", "-"] for a, b in combo]))
+    rnd = random_streams(rng, ctx.pick(6000, 30000), 0)
+    return ex, rnd
+
+
+def random_streams(rng, n, t0):
     rnd = []
-    for _ in range(ctx.pick(6000, 30000)):
+    for _ in range(n):
         chunks = []
-        t = rng.randint(0, 3)
-        rid = "r"
+        t = t0 + rng.randint(0, 3)
+        rid = rng.choice(["r", "r", "r", "_sup"])
         for _ in range(rng.randint(1, 6)):
             e = t + rng.randint(0, 4)
             r = rng.random()
             if r < 0.1:
                 rid = rng.choice(["r", "s", "_sup"])
             sub = "-"
-            if rid == "_sup" or rng.random() < 0.05:
+            # a `_sup` run mostly carries subruns (superrun chunk); sometimes not (then `last_subrun` is None afterwards)
+            if (rid == "_sup" and rng.random() < 0.8) or rng.random() < 0.05:
                 cut = rng.randint(t, e)
                 sub = rng.choice([f"a:{t}:{e}", f"a:{t}:{cut},b:{cut}:{e}", f"a:{t}:{max(t, e - 1)}", f"b:{t}:{e}"])
             chunks.append([t, e, rid, sub])
             t = e if rng.random() < 0.8 else e + rng.choice([-1, 1, 2])
             t = max(t, 0)
         rnd.append(dict(chunks=chunks))
-    return ex, rnd
+    return rnd
 
 
 # ----------------------------------------------------------------------------- 6. fix_dtype
@@ -896,11 +913,12 @@ class Ctl:
     viol = None
     ops: list = []          # model ops for what the misbehaving compute did / handed back
     invoked = 0
+    t0 = 0                  # time of the start of the run
 
 
 def good_rows(i, n=2):
     a = np.zeros(n, DT)
-    a["time"] = W * i + 1 + 5 * np.arange(n)
+    a["time"] = Ctl.t0 + W * i + 1 + 5 * np.arange(n)
     a["endtime"] = a["time"] + 2
     a["id"] = 100 * i + np.arange(n)
     return a
@@ -970,7 +988,7 @@ def build_classes(kind):
             return chunk_i < Ctl.n
 
         def compute(self, chunk_i):
-            return self.chunk(start=W * chunk_i, end=W * (chunk_i + 1), data=good_rows(chunk_i))
+            return self.chunk(start=Ctl.t0 + W * chunk_i, end=Ctl.t0 + W * (chunk_i + 1), data=good_rows(chunk_i))
 
     def bad(chunk_i):
         return Ctl.bad_i is not None and chunk_i == Ctl.bad_i
@@ -992,7 +1010,7 @@ def build_classes(kind):
                 return chunk_i < Ctl.n
 
             def compute(self, chunk_i):
-                s, e, d = W * chunk_i, W * (chunk_i + 1), good_rows(chunk_i)
+                s, e, d = Ctl.t0 + W * chunk_i, Ctl.t0 + W * (chunk_i + 1), good_rows(chunk_i)
                 if bad(chunk_i):
                     r = d if Ctl.viol == "bare_from_source" else misbehave(self, d, s, e, "pp")
                     if Ctl.viol == "bare_from_source":
@@ -1159,7 +1177,7 @@ def scenario(case):
     kind, viol, bad_i, proc, target = case["kind"], case["viol"], case["bad_i"], case["processor"], case["target"]
     mode = case.get("mode", "plain")
     tmp = tempfile.mkdtemp(prefix="s_", dir=scratch_dir())
-    Ctl.n, Ctl.viol, Ctl.bad_i, Ctl.ops, Ctl.invoked = case.get("n", 4), viol, bad_i, [], 0
+    Ctl.n, Ctl.viol, Ctl.bad_i, Ctl.ops, Ctl.invoked, Ctl.t0 = case.get("n", 4), viol, bad_i, [], 0, case.get("t0", 0)
     classes = build_classes(kind) + [down_class(kind)]
 
     def ctx_():
@@ -1177,7 +1195,7 @@ def scenario(case):
                                                  rows=rows_any(c.data)))
                     if mode == "eager_slow":
                         import time
-                        time.sleep(0.05)
+                        time.sleep(0.15)
                 res["out"] = "ok"
             except Exception as e:  # noqa: BLE001
                 res["out"] = "err " + sl.err_name(e)
@@ -1214,7 +1232,7 @@ SCEN_CACHE: dict = {}
 
 
 def case_key(case):
-    return "|".join(str(case.get(k)) for k in ("kind", "viol", "bad_i", "processor", "target", "mode", "rep"))
+    return "|".join(str(case.get(k)) for k in ("kind", "viol", "bad_i", "processor", "target", "mode", "rep", "t0"))
 
 
 def impl_scenario(case):
@@ -1242,8 +1260,10 @@ def plugin_stream(case):
     """chunk boundaries the (mis)behaving plugin hands over, for the gap kinds"""
     out = []
     var = case["viol"].partition(":")[2]
+    t0 = case.get("t0", 0)
     for i in range(case.get("n", 4)):
-        parts = [(W * i, W * i + W // 2), (W * i + W // 2, W * (i + 1))] if case["kind"] == "down" else [(W * i, W * (i + 1))]
+        a, b = t0 + W * i, t0 + W * (i + 1)
+        parts = [(a, (a + b) // 2), ((a + b) // 2, b)] if case["kind"] == "down" else [(a, b)]
         if i == case["bad_i"]:
             s, e = parts[-1]
             parts[-1] = dict(before=(s + 1, e), after=(s, e - 1), overlap_before=(s - 1, e), overlap_after=(s, e + 1))[var]
@@ -1260,6 +1280,7 @@ def model_post_scenario(s):
 def expected_rows(case):
     n = case.get("n", 4)
     rows = []
+    Ctl.t0 = case.get("t0", 0)
     for i in range(n):
         rows += rows_any(good_rows(i))
     if case["target"] in ("down",) or case["kind"] == "cut":
@@ -1267,7 +1288,7 @@ def expected_rows(case):
     return rows
 
 
-F3_TOKEN = "F3-gap-stored-after-exception"
+F3_TOKEN = "F3-gap-stored-after-exception"   # known finding: EAGER threaded pipeline only (the lazy variant needed D6, fixed)
 
 
 def oracle_scenario(case, out):
@@ -1278,14 +1299,14 @@ def oracle_scenario(case, out):
     bad = case["bad_i"] is not None
     rr = r["rerun"]
     if not rr.get("ok"):
-        if bad and out.startswith("err") and r["stored"].get("pp") and v == "gap" and case["processor"] == "threaded_mailbox":
+        if bad and out.startswith("err") and r["stored"].get("pp") and v == "gap" and case.get("mode") == "eager_slow":
             pass  # consequence of F3 below (the stored gapped data is loaded again)
         else:
             msgs.append(f"a subsequent correct run failed: {rr.get('err')}")
     elif rr["rows"] != expected_rows(case) or not rr["stored"]:
         msgs.append("a subsequent correct run returned other rows or did not store its target")
     if r["stored_bad"]:
-        if not (v == "gap" and case["processor"] == "threaded_mailbox" and out.startswith("err")):
+        if not (v == "gap" and case.get("mode") == "eager_slow" and out.startswith("err")):
             msgs.append("data left in storage as valid does not conform: " + "; ".join(r["stored_bad"]))
     if out.startswith("err"):
         if not bad:
@@ -1293,8 +1314,8 @@ def oracle_scenario(case, out):
         # (for the gap kinds the sibling output qq is itself continuous and correct: it may legitimately be stored)
         for d in (("pp", "down") if v == "gap" else ("pp", "qq", "down")):
             if r["stored"].get(d):
-                if v == "gap" and case["processor"] == "threaded_mailbox" and d == "pp":
-                    return (f"{F3_TOKEN}: processor=threaded_mailbox: the caller got {r.get('exc')} for a target with a gap/overlap, "
+                if v == "gap" and case["processor"] == "threaded_mailbox" and case.get("mode") == "eager_slow" and d == "pp":
+                    return (f"{F3_TOKEN}: processor=threaded_mailbox eager: the caller got {r.get('exc')} for a target with a gap/overlap, "
                             "but the target is left in storage as valid data")
                 msgs.append(f"processing stopped with {r.get('exc')} but {d} is stored as valid data")
     else:
@@ -1415,12 +1436,6 @@ def run(ctx):
                    branch=lambda c, o: ("multi" if c["multi"] else "single") + ":" + o)
 
     scases = scenario_cases(ctx)
-    tg = [c for c in scases if c["processor"] == "threaded_mailbox" and c["viol"].startswith("gap")]
-    scases = [c for c in scases if not (c["processor"] == "threaded_mailbox" and c["viol"].startswith("gap"))]
-    ctx.correspond("pipeline/threaded-gap", tg, impl_scenario, op_scenario, oracle_scenario, model_post=model_post_scenario,
-                   nontrivial=lambda c, o: c["bad_i"] is not None,
-                   rule="the gap / overlap kinds on the threaded_mailbox processor (kept apart: the open finding F3 shows up here at random)",
-                   branch=branch_scenario)
     ctx.correspond("pipeline", scases, impl_scenario, op_scenario, oracle_scenario, model_post=model_post_scenario,
                    nontrivial=lambda c, o: c["bad_i"] is not None,
                    rule="violation kind x plugin kind (source, ordinary, multi-output, down-chunking, loop, cut, overlap-window; only "
@@ -1429,7 +1444,51 @@ def run(ctx):
                         "DataDirectory; plus the well-behaved pipeline of every kind",
                    branch=branch_scenario, max_samples=6)
     ctx.correspond("pipeline/eager-slow-consumer", eager_cases(), impl_scenario, None, oracle_scenario, nontrivial=lambda c, o: True,
-                   rule="F3 reproducer: gap in the target, threaded_mailbox with allow_lazy=False, consumer sleeping 50 ms per chunk", branch=branch_scenario)
+                   rule="F3 reproducer: gap in the target, threaded_mailbox with allow_lazy=False, consumer sleeping 150 ms per chunk", branch=branch_scenario)
+    run_epoch(ctx)
+
+
+def run_epoch(ctx):
+    """the same functions with every time shifted by T0 (epoch-scale ns): integer decisions must not depend on the magnitude"""
+    rng = ctx.rng
+    ex, rnd, big = chunk_cases(ctx)
+    sub = [c for c in ex if len(c["rows"]) <= 2] + rng.sample(ex, min(len(ex), ctx.pick(3000, 12000)))
+    cases = [shift_chunk_case(c) for c in sub + rnd[: ctx.pick(1500, 8000)] + big[: ctx.pick(30, 200)]]
+    ctx.correspond("epoch/chunk_init", cases, impl_chunk, op_chunk, oracle_chunk, nontrivial=lambda c, o: len(c["rows"]) >= 1,
+                   rule=f"chunk_init cases (all exhaustive ones with <= 2 rows, a sample of the others, random, 500-window) with start, end "
+                        f"and every row shifted by T0 = {T0}; rows stick out by 1..2 ns, which float64 cannot resolve there",
+                   branch=lambda c, o: ("inside" if all(c["start"] <= t and e <= c["end"] for t, e, _ in c["rows"]) else "outside") + ":" + o.split(" ")[0])
+    sex, _ = stream_cases_exhaustive_only()
+    scases = [dict(chunks=[[a + T0, b + T0, rid, s] for a, b, rid, s in c["chunks"]]) for c in sex] + random_streams(rng, ctx.pick(2000, 10000), T0)
+    ctx.correspond("epoch/continuity", scases, impl_stream, op_stream, oracle_stream, nontrivial=lambda c, o: len(c["chunks"]) >= 2,
+                   rule="the exhaustive continuity streams and random ones (run changes, superrun chunks) shifted by T0: breaks of 1 ns",
+                   branch=lambda c, o: " ".join(o.split(" ")[:2]))
+    fcases = gen_fix_cases(ctx, ctx.pick(2500, 12000), t0=T0)
+    ctx.correspond("epoch/fix_output", fcases, impl_fix, op_fix, oracle_fix, nontrivial=lambda c, o: True,
+                   rule="fix_output cases generated around T0 (ranges, rows, column dicts, chunks)",
+                   branch=lambda c, o: c["plugin"]["kind"] + ":" + c["result"]["t"] + ":" + " ".join(o.split(" ")[:2 if o.startswith("err") else 1]))
+    pcases = []
+    for kind in KINDS:
+        for proc in ("single_thread", "threaded_mailbox"):
+            pcases.append(dict(kind=kind, viol="none", bad_i=None, processor=proc, target="pp", n=4, t0=T0))
+            for viol in ("row_bare:late", "row_bare:early", "row_chunk:late", "gap:before", "gap:after", "gap:overlap_after"):
+                if applicable(kind, viol):
+                    pcases.append(dict(kind=kind, viol=viol, bad_i=rng.choice([1, 2]), processor=proc, target="pp", n=4, t0=T0))
+    ctx.correspond("epoch/pipeline", pcases, impl_scenario, op_scenario, oracle_scenario, model_post=model_post_scenario,
+                   nontrivial=lambda c, o: c["bad_i"] is not None,
+                   rule="pipeline scenarios whose run starts at T0: rows 1 ns outside their chunk, 1 ns gaps / overlaps in the target, "
+                        "every plugin kind, both processors, plus the well-behaved pipeline",
+                   branch=branch_scenario)
+
+
+def stream_cases_exhaustive_only():
+    grid = 3
+    ivs = gen.intervals(0, grid, True)
+    ex = []
+    for n in range(0, 4):
+        for combo in itertools.product(ivs, repeat=n):
+            ex.append(dict(chunks=[[a, b, "r", "-"] for a, b in combo]))
+    return ex, None
 
 
 def search(ctx):
@@ -1445,11 +1504,12 @@ REPLAYERS = {
     "fix_output_down": (impl_fixdown, oracle_fixdown), "continuity": (impl_stream, oracle_stream), "fix_dtype": (impl_fixdtype, oracle_fixdtype),
     "pipeline": (impl_scenario, oracle_scenario),
 }
+EPOCH_ALIAS = {"chunk_init": "chunk_init", "continuity": "continuity", "fix_output": "fix_output", "pipeline": "pipeline"}
 
 
 def replay(ctx, body):
     comp = body["component"].split("/")
-    name = comp[0] if comp[0] != "search" else comp[1]
+    name = comp[0] if comp[0] not in ("search", "epoch") else EPOCH_ALIAS.get(comp[1], comp[1])
     impl, oracle = REPLAYERS.get(name, (None, None))
     if impl is None or body.get("case") is None:
         return f"obligation {body['component']} has no input to replay (no-failing-input-found); re-run the check"
